@@ -27,7 +27,7 @@ ASSUMPTIONS = [
     'no crash is injected: a crash ends the history, and the property is about what survives inside a process',
 ]
 RULE = ('history = 5-40 operations from {LOAD(path, mode) of .rules/.csv/None, EDIT then reload, LOADFAIL (ENOENT/EACCES/EIO or a '
-        'corrupt version), CLASSIFY, CLASSIFY_FILE, ENGINE, MATCH, EVAL, FILTER, VIEWS} over pools built to collide. '
+        'corrupt version), CLASSIFY, CLASSIFY_FILE, ENGINE, MATCH, EVAL, FILTER, VIEWS, CMD (a whole tally command), CLOCK (the calendar date moves while the process lives; the reference process runs on the same day)} over pools built to collide. '
         'distinct_nontrivial counts distinct (abstract cache state before, operation kind, abstract cache state after) '
         'transitions, the abstract state being (source of the engine cached for normalize_merchant, outcome of the last load, '
         'bitmask of pool expressions present in the parse cache).')
@@ -144,7 +144,14 @@ COFFEE,Coffee After Bad,Food,Cafe,
 RENT[amount>100],Rent Csv,Housing,Rent,
 ''',
 }
-GEN_CSV_PATTERNS = ['UBER', 'UBER.*EATS', 'COFFEE', '*BAD', 'NETFLIX', 'COFFEE(', 'RENT[amount>100]', 'contains("UBER") and amount > 10', '[', 'UBER|COFFEE']
+GEN_CSV_PATTERNS = ['UBER', 'UBER.*EATS', 'COFFEE', '*BAD', 'NETFLIX', 'COFFEE(', 'RENT[amount>100]', 'contains("UBER") and amount > 10', '[', 'UBER|COFFEE',
+                    'UBER[date:last30days]', 'COFFEE[date:last60days]', 'NETFLIX[date:last365days]']
+# the days a long-lived process may live to see (CLOCK operation): chosen around the transaction dates so that the
+# [date:lastNdays] windows of the CSV pools open and close, plus both leap days
+CLOCK_DAYS = ['2025-01-08', '2025-02-03', '2025-02-08', '2025-03-01', '2025-03-10', '2025-04-30', '2025-06-15', '2026-01-20', '2024-02-29', '2028-02-29']
+DATED_CSV = ['UBER[date:last30days],Uber Recent,Transport,Recent,\nUBER,Uber Old,Transport,Old,\n',
+             'COFFEE[date:last60days],Coffee Recent,Food,Recent,new\nNETFLIX[date:last365days],Netflix Year,Media,Year,\nCOFFEE,Coffee Old,Food,Old,\n',
+             'UBER[date:last365days],Uber Year,Transport,Year,\nRENT[date:last30days],Rent Now,Housing,Now,\nRENT[date:last730days],Rent Then,Housing,Then,\n']
 
 
 def gen_csv_text(rng):
@@ -442,8 +449,31 @@ def gen_cmd_history(rng):
     return ops
 
 
+def gen_clock_history(rng):
+    """A process that lives through one or more midnights: relative-date rules must follow the calendar."""
+    head = 'Pattern,Merchant,Category,Subcategory,Tags\n'
+    extra = {'t1.csv': head + rng.choice(DATED_CSV), 't2.csv': head + rng.choice(DATED_CSV)}
+    ops = [{'op': 'FILES', 'files': extra}]
+    if rng.random() < 0.5:
+        ops.append({'op': 'CLOCK', 'today': rng.choice(CLOCK_DAYS)})
+    ops.append({'op': 'LOAD', 'path': rng.choice(sorted(extra)), 'mode': 'first_match'})
+    for _ in range(rng.randint(4, 14)):
+        r = rng.random()
+        if r < 0.3:
+            ops.append({'op': 'CLOCK', 'today': rng.choice(CLOCK_DAYS)})
+        elif r < 0.4:
+            ops.append({'op': 'LOAD', 'path': rng.choice(sorted(extra) + ['c.csv']), 'mode': 'first_match'})
+        elif r < 0.9:
+            ops.append({'op': 'CLASSIFY', 'txn': rng.randrange(len(TXNS)), 'rows': False, 'transforms': False})
+        else:
+            ops.append({'op': 'CLASSIFY_FILE', 'rows': False})
+    return ops
+
+
 def gen_history(rng, tier):
     r0 = rng.random()
+    if r0 < 0.08:
+        return gen_clock_history(rng)
     if r0 < 0.35:
         return gen_focus_history(rng)
     if r0 < 0.55:
@@ -496,6 +526,8 @@ def gen_history(rng, tier):
             ops.append({'op': 'EVAL', 'expr': rng.randrange(len(EXPRS)), 'txn': rng.randrange(len(TXNS)), 'rows': rng.random() < 0.5})
         elif r < 0.97:
             ops.append({'op': 'FILTER', 'expr': rng.randrange(len(FILTERS)), 'm': rng.randrange(len(MERCHANT_TXNS))})
+        elif r < 0.985:
+            ops.append({'op': 'CLOCK', 'today': rng.choice(CLOCK_DAYS)})
         else:
             ops.append({'op': 'VIEWS', 'text': rng.randrange(len(VIEWS_TEXTS))})
     return ops
@@ -646,6 +678,9 @@ def do_op(st, op, ch, root):
     _ROOT[0] = os.path.realpath(root)
     if k == 'FILES':
         return ['files']
+    if k == 'CLOCK':
+        ch.set_today(op['today'])
+        return ['clock', op['today']]
     if k == 'EDIT':
         if op.get('corrupt'):
             text = CORRUPT[op['path']]
@@ -762,8 +797,12 @@ def context_ops(ops, j):
         if ops[i]['op'] == 'LOAD':
             L = i
             break
+    for i in range(j - 1, -1, -1):
+        if ops[i]['op'] == 'CLOCK':
+            ctx.append(i)        # the fresh process runs on the same day
+            break
     if op['op'] == 'CMD':
-        return [], None          # a command reads everything it needs itself
+        return sorted(ctx), None          # a command reads everything it needs itself
     if op['op'] != 'LOAD' and L is not None:
         ctx.append(L)
     if op['op'] == 'MATCH':
@@ -846,7 +885,7 @@ def run_history(ops, scratch):
     rroot = os.path.join(scratch, 'R')
     epoch = None
     for j, op in enumerate(ops):
-        if op['op'] in ('EDIT', 'FILES'):
+        if op['op'] in ('EDIT', 'FILES', 'CLOCK'):
             r_out.append(None)
             continue
         ctx, L = context_ops(ops, j)
@@ -903,6 +942,8 @@ def op_label(op):
         return 'LOAD %s%s' % (op['path'], ' under ' + str(op['fault']) if op.get('fault') else '')
     if k in ('CLASSIFY', 'MATCH'):
         return '%s %s' % (k, TXNS[op['txn']]['description'])
+    if k == 'CLOCK':
+        return 'CLOCK ' + op['today']
     if k == 'CMD':
         return 'tally ' + ' '.join(a.replace('{cfg}', op['budget'] + '/config') for a in op['argv'])
     return k
@@ -931,6 +972,8 @@ def execute(ops, scratch, seed=None, i=None):
             count['fired.read-fault'] = count.get('fired.read-fault', 0) + 1
         if op.get('corrupt'):
             count['fired.corrupt-at-rest'] = count.get('fired.corrupt-at-rest', 0) + 1
+        if op['op'] == 'CLOCK':
+            count['fired.clock-jump'] = count.get('fired.clock-jump', 0) + 1
         if r_out[j] is None:
             continue
         count['reference_processes'] += 1
@@ -942,6 +985,8 @@ def execute(ops, scratch, seed=None, i=None):
             else:
                 sig = dict(zip(('last_load', 'earlier_rules_load'), load_class(ops, j)),
                            op='classify' if op['op'].startswith('CLASSIFY') else op['op'])
+                if any(o['op'] == 'CLOCK' for o in ops[:j]):
+                    sig['clock_moved'] = True
             violations.append({
                 'invariant': 'EQ',
                 'signature': sig,
